@@ -36,6 +36,17 @@ theorem consistent_default : consistent defaultEnv = true := by decide +kernel
 /-- the same for `Environment(extra=True)` -/
 theorem consistent_extra : consistent extraEnv = true := by decide +kernel
 
+
+/-- **The grammar model uses the tag names the parse methods use** (`Environment()`): for every
+registered block tag, the set of names extracted from its `parse` source (`parse_block`/`eat_block`
+end tuples, `expect`, `is_tag`, comparisons with `stream.current.value`) equals the model frame's
+end tag + inner tags; inline tags look for no other tag than themselves.  Together with
+`consistent_default` this compares the audit's tables with what the *parsers* accept. -/
+theorem parser_names_agree_default : parserAgrees defaultEnv defaultParserNames = true := by decide +kernel
+
+/-- the same for `Environment(extra=True)` -/
+theorem parser_names_agree_extra : parserAgrees extraEnv extraParserNames = true := by decide +kernel
+
 /-! ## Sentence 2 — a source that parses in strict mode is reported clean -/
 
 /-- **Full statement, refuted on this tree (1/2)**: `{% break %}` alone parses in strict mode and is
@@ -103,6 +114,41 @@ theorem source_strict_parse_implies_clean_partial (tbl : EnvTable) (hc : consist
   unfold parses
   rw [show Opts.restricted = (⟨false, false, false⟩ : Opts) from rfl, h2]
   exact beq_self_eq_true _
+
+
+/-! ## Caller-supplied inner-tag maps (`analyze_tags_from_string(..., inner_tags=m)`) -/
+
+/-- **Sentence 2 for any consistent caller-supplied map**: whatever map `m` the caller passes
+(`withInner` = `inner_tags or DEFAULT_INNER_TAG_MAP`), if the resulting table is consistent with the
+grammar, every token list the restricted grammar accepts is audited clean.  (Sentences 1 and 3 —
+`audit_total`, `unknown_reported`, `unclosed_reported…` — already hold for every table, hence for
+every map.) -/
+theorem strict_parse_implies_clean_any_map_partial (tbl : EnvTable) (m : List (TagName × List TagName))
+    (hc : consistent (withInner tbl m) = true) (toks : List TagName)
+    (hr : parses tbl Opts.restricted toks = true) : audit (withInner tbl m) toks = .ok Report.clean :=
+  restricted_clean hc (by rw [parses_withInner]; exact hr)
+
+/-- **A map that allows at least what the default map allows raises no false alarms**: extending
+`DEFAULT_INNER_TAG_MAP` (more inner tags, more blocks, any order) keeps the clean-report theorem. -/
+theorem strict_parse_implies_clean_superset_map_partial (tbl : EnvTable) (hc : consistent tbl = true)
+    (m : List (TagName × List TagName))
+    (hsup : ∀ t b, (enclosing tbl t).contains b = true → (enclosing { tbl with inner := m } t).contains b = true)
+    (toks : List TagName) (hr : parses tbl Opts.restricted toks = true) :
+    audit (withInner tbl m) toks = .ok Report.clean := by
+  refine strict_parse_implies_clean_any_map_partial tbl m ?_ toks hr
+  unfold withInner
+  split
+  · exact hc
+  · exact consistent_of_inner_superset tbl m hsup hc
+
+/-- the hypothesis on the map is needed: a caller map without `else` for `if` makes the audit report
+the `else` of a well-formed `if` (by design: the caller's map is authoritative) -/
+theorem caller_map_without_else_counterexample :
+    ¬ (audit (withInner defaultEnv [(nm "if", [nm "elsif"])]) [nm "if", nm "else", endNm "if"] = .ok Report.clean) := by
+  decide +kernel
+
+/-- an empty caller map is falsy and means the default map -/
+theorem empty_map_is_default (tbl : EnvTable) : withInner tbl [] = tbl := rfl
 
 /-! ## Sentence 3 — unknown tag names and block tags without an end tag are always reported -/
 
